@@ -64,6 +64,41 @@ ConvValue(X, W, B, attrs) ==
                                                                    idx[4] * g.strides[2] + kw * g.dils[2] - g.pads[2]>>),
                  0, g.kSp[2] - 1), 0, g.kSp[1] - 1), 0, C - 1))
 
+\* the same sum in IEEE arithmetic over the value classes of Values.tla (infinities, NaN, signed zero): every weight takes part
+\* in the sum, so a zero weight under an infinite or NaN input element yields NaN
+\* (image elements are value records, weights and bias small integers)
+XAtF(X, nn, c, p) == IF \A i \in 1..Len(p) : p[i] >= 0 /\ p[i] < X.shape[2 + i] THEN At(X, <<nn, c>> \o p) ELSE Fin(0)
+RECURSIVE FSumF(_, _, _)
+FSumF(F(_), lo, hi) == IF lo > hi THEN Fin(0) ELSE FAdd(F(lo), FSumF(F, lo + 1, hi))
+ConvValueF(X, W, B, attrs) ==
+   LET g == ConvGeometry(X, W, attrs)
+       oshape == <<X.shape[1], W.shape[1]>> \o g.oSp
+       C == X.shape[2]
+       Bias(m) == IF IsNil(B) THEN Fin(0) ELSE Fin(B.data[m + 1])
+   IN IF g.n = 1
+      THEN Mk(X.dt, oshape, LAMBDA idx :
+              FAdd(Bias(idx[2]), FSumF(LAMBDA c : FSumF(LAMBDA k :
+                 FMul(Fin(At(W, <<idx[2], c, k>>)), XAtF(X, idx[1], c, <<idx[3] * g.strides[1] + k * g.dils[1] - g.pads[1]>>)),
+                 0, g.kSp[1] - 1), 0, C - 1)))
+      ELSE Mk(X.dt, oshape, LAMBDA idx :
+              FAdd(Bias(idx[2]), FSumF(LAMBDA c : FSumF(LAMBDA kh : FSumF(LAMBDA kw :
+                 FMul(Fin(At(W, <<idx[2], c, kh, kw>>)), XAtF(X, idx[1], c, <<idx[3] * g.strides[1] + kh * g.dils[1] - g.pads[1],
+                                                                           idx[4] * g.strides[2] + kw * g.dils[2] - g.pads[2]>>)),
+                 0, g.kSp[2] - 1), 0, g.kSp[1] - 1), 0, C - 1)))
+
+\* KF-C05-dilation-gap-nonfinite (defect model): the code dilates the kernel by inserting explicit zero weights and multiplies
+\* them with the image elements under the gaps, so a non-finite element that no tap touches still turns the sum into NaN
+Dilated(W, dils) ==
+   LET n == Len(W.shape) - 2 IN
+   Mk(W.dt, <<W.shape[1], W.shape[2]>> \o [i \in 1..n |-> (W.shape[2 + i] - 1) * dils[i] + 1], LAMBDA idx :
+        IF \A i \in 1..n : idx[2 + i] % dils[i] = 0 THEN At(W, <<idx[1], idx[2]>> \o [i \in 1..n |-> idx[2 + i] \div dils[i]]) ELSE 0)
+KnownConvF(X, W, B, attrs) ==
+   LET n == Len(W.shape) - 2
+       dils == AttrV(attrs, "dilations", [i \in 1..n |-> 1])
+       undil == SelectSeq(attrs, LAMBDA a : a.name \notin {"dilations", "kernel_shape"})
+       asis == ConvValueF(X, Dilated(W, dils), B, undil) IN
+   IF asis # ConvValueF(X, W, B, attrs) THEN <<Known("KF-C05-dilation-gap-nonfinite", "value", <<asis>>)>> ELSE <<>>
+
 \* KF-C05-autopad-valid (defect model): auto_pad = VALID is padded like SAME_UPPER (pinned so by the repository's tests)
 KnownConv(X, W, B, attrs) ==
    IF AttrV(attrs, "auto_pad", "NOTSET") = "VALID" /\ AttrV(attrs, "group", 1) = 1 /\ ConvWellFormed(X, W, B, attrs)
